@@ -5,8 +5,9 @@ Open Scope Q_scope.
 
 Inductive cin :=
 | Conv (fn : nat) (src : option kind) (t : terms)        (* 0 pubo_to_puso 1 puso_to_pubo 2 qubo_to_quso 3 quso_to_qubo *)
-| Method (k : kind) (t : terms) (es : list edit) (meth : nat)   (* object built from t, edited in place, then 0 to_qubo 1 to_quso 2 to_pubo 3 to_puso *)
-| ConvSol (k : kind) (t : terms) (sol : list (nat * Z)) (flag : bool)
+| Method (k : kind) (t : terms) (es : list edit) (mpx : option (list (label * nat))) (meth : nat)
+    (* object built from t, edited in place, optionally set_mapping / set_reverse_mapping, then 0 to_qubo 1 to_quso 2 to_pubo 3 to_puso *)
+| ConvSol (k : kind) (t : terms) (mpx : option (list (label * nat))) (sol : list (nat * Z)) (flag : bool)
 | ExportQ (lab : bool) (t : terms) | ExportH (lab : bool) (t : terms) | ExportJ (lab : bool) (t : terms)   (* lab: a labelled QUBO / QUSO object (the properties are inherited) *)
 | ToMatrix (t : terms) (sym : bool)
 | FromMatrix (es : list (nat * nat * Q)).
@@ -26,6 +27,14 @@ Definition with_src (src : option kind) (t : terms) (f : option kind -> terms ->
 Definition out_model (r : result model) : cout :=
   match r with Ok m => OModelOut (kd m) (tm m) | Err e => OErr e end.
 
+(* set_mapping / set_reverse_mapping: the mapping is replaced, nothing else is touched *)
+Definition with_mp (m : model) (mpx : option (list (label * nat))) : model :=
+  match mpx with
+  | None => m
+  | Some l => {| kd := kd m; tm := tm m; deg_c := deg_c m; vars_c := vars_c m; mp := l; next_label := next_label m;
+                anc := anc m; cons := cons m; nm := nm m |}
+  end.
+
 Definition list_max (l : list nat) : nat := fold_left Nat.max l 0%nat.
 
 Definition run_case (c : cin) : cout :=
@@ -34,8 +43,8 @@ Definition run_case (c : cin) : cout :=
       out_model (with_src src t (match fn with
                                  | 0%nat => pubo_to_puso | 1%nat => puso_to_pubo
                                  | 2%nat => qubo_to_quso | _ => quso_to_qubo end))
-  | Method k t es meth =>
-      out_model (bind (bind (m_create k t) (fun m0 => run_edits m0 es)) (fun m =>
+  | Method k t es mpx meth =>
+      out_model (bind (bind (m_create k t) (fun m0 => run_edits m0 es)) (fun m1 => let m := with_mp m1 mpx in
         match k, meth with
         | KQubo, 0%nat => qubo_to_qubo m | KQubo, 1%nat => qubo_to_quso_m m
         | KQubo, 2%nat => qubo_to_pubo m | KQubo, _ => qubo_to_puso_m m
@@ -52,8 +61,8 @@ Definition run_case (c : cin) : cout :=
         | (KPuso | KPcso), _ => puso_to_puso_m m None LDefault []
         | _, _ => Err TypeError
         end))
-  | ConvSol k t sol flag =>
-      match bind (m_create k t) (fun m => convert_solution (is_spin k) m sol flag) with
+  | ConvSol k t mpx sol flag =>
+      match bind (m_create k t) (fun m => convert_solution (is_spin k) (with_mp m mpx) sol flag) with
       | Ok l => OSol l | Err e => OErr e
       end
   | ExportQ lab t => match m_create (if lab then KQubo else KQuboM) t with Ok m => OTerms (export_Q (tm m)) | Err e => OErr e end
